@@ -267,13 +267,13 @@ def world_expr(wid, key, res, tier):
     nt = len(key)
     inj = len(set(key)) == nt and len(set(res)) == nt and all(r > 0 for r in res)
     if nt >= 4:
-        cfgs = [("true", 0), ("true", 2), ("dict", 0), ("lru", 1), ("lru", 2)] + ([("lru", 3), ("true", 1), ("true", 3)] if tier != "quick" else [])
-        mb, me, mt = (5, 2, 5) if tier == "quick" else (5, 3, 6)
+        cfgs = [("true", 0), ("true", 2), ("dict", 0), ("lru", 1), ("lru", 2)] + ([("lru", 3)] if tier != "quick" else [])
+        mb, me, mt = (5, 2, 5) if tier == "quick" else (5, 3, 5)
     elif nt == 3:
-        cfgs = [("true", 0), ("dict", 0), ("lru", 2)] + ([("lru", 1), ("true", 2)] if tier != "quick" else [])
+        cfgs = [("true", 0), ("dict", 0), ("lru", 2)]
         mb, me, mt = (3, 2, 3) if tier == "quick" else (4, 2, 4)
     else:
-        cfgs = [("true", 0), ("dict", 0)] + ([("lru", 1)] if tier != "quick" else [])
+        cfgs = [("true", 0), ("dict", 0)]
         mb, me, mt = (2, 2, 2) if tier == "quick" else (3, 2, 3)
     c = "{" + ", ".join(f'[kind |-> "{k}", ms |-> {m}]' for k, m in cfgs) + "}"
     return (f'[id |-> "{wid}", nt |-> {nt}, key |-> {tla_seq(key)}, res |-> {tla_seq(res)}, sym |-> {"TRUE" if inj and nt >= 4 else "FALSE"}, '
@@ -386,12 +386,12 @@ def run(tier, seed):
                 if m == "expval" or (m == "state" and not quick):
                     chosen.append((gi, m))
             elif kind in ("collide3", "dup3"):
-                (chosen if (m in ("state", "expval") or not quick) else rest).append((gi, m))
+                (chosen if (m in ("state", "expval") or (m == "dm" and not quick)) else rest).append((gi, m))
             elif risky(g["keyc"], g["resc"][m]):
                 chosen.append((gi, m))
             else:
                 rest.append((gi, m))
-    n_sample = 260 if quick else 1500
+    n_sample = 260 if quick else 600
     rng.shuffle(rest)
     chosen += rest[:n_sample]
     # hash binding on ALL groups (one measurement type): model key classes == classes of tape.hash ?
